@@ -50,6 +50,16 @@ def gen_rect(rng, fn, prec):
         return (-rdy(rng, rng.randint(-4, 1), 8), rdy(rng, rng.randint(-4, 1), 8))
     u = rng.random()
     kinds = ["point", "ulp", "narrow", "wide"]
+    if fn in ("cos", "sin", "exp", "log") and rng.random() < 0.3:
+        # a point on the real (or, for exp, also the imaginary) axis where one part of f(z) is within 2^-(prec+24) of a
+        # representable number: no slack for the directed roundings
+        from props import c14e
+        if fn == "exp" and rng.random() < 0.6:
+            hp = c14e.hard_point(rng, rng.choice(["sin", "cos"]), prec)
+            if hp is not None: return "hard_point", (Fraction(0), Fraction(0)), (hp[1], hp[1])
+        hp = c14e.hard_point(rng, fn, prec)
+        if hp is not None and not (fn == "log" and hp[1] <= 0):
+            return "hard_point", (hp[1], hp[1]), (Fraction(0), Fraction(0))
     if fn in ("cos", "sin", "exp") and u < 0.3:
         # the periodic direction (re for cos/sin, im for exp) across / next to a multiple of pi/2
         k = rng.randint(-4, 4); c = k * pi_fr(128) / 2
